@@ -9,9 +9,7 @@ import (
 	"fmt"
 	"io"
 	"net"
-	"os"
 	"reflect"
-	"runtime"
 	"sync"
 	"testing"
 	"testing/synctest"
@@ -232,6 +230,14 @@ func (c discCase) build(tok []byte) (buf []byte, signer *btcec.PrivateKey, must 
 	return nil, nil, false
 }
 
+// macMasks: alterations of bytes that are covered by a hash or MAC (the value written does not matter to
+// the comparison): every single bit and all bits. valueMasks32: a fixed set of 32 masks for long messages.
+var (
+	macMasks     = []int{0x01, 0x02, 0x04, 0x08, 0x10, 0x20, 0x40, 0x80, 0xff}
+	valueMasks32 = []int{0x01, 0x02, 0x04, 0x08, 0x10, 0x20, 0x40, 0x80, 0x03, 0x06, 0x0c, 0x18, 0x30, 0x60, 0xc0,
+		0xff, 0x7f, 0xfe, 0x0f, 0xf0, 0x55, 0xaa, 0x81, 0x11, 0x22, 0x44, 0x88, 0x33, 0xcc, 0x3c, 0xc3, 0x99}
+)
+
 func discMasks(thorough bool) []int {
 	if !thorough {
 		return []int{0x01, 0x80, 0xff}
@@ -288,14 +294,22 @@ func discGroups(thorough bool) [][]discCase {
 						if k == "alt-rehash" {
 							lo = 32
 						}
+						ms := masks
+						if thorough {
+							ms = macMasks // without a new signature the packet dies at the hash or changes identity
+						}
 						for p := lo; p < total; p++ {
-							for _, m := range masks {
+							for _, m := range ms {
 								cs = append(cs, discCase{d, bi, k, p, m, st})
 							}
 						}
 					case "alt-resign":
+						ms := masks
+						if thorough && st != stPlain {
+							ms = valueMasks32 // all 255 values in the plain state, 32 masks in the stateful repetitions
+						}
 						for p := 97; p < total; p++ {
-							for _, m := range masks {
+							for _, m := range ms {
 								cs = append(cs, discCase{d, bi, k, p, m, st})
 							}
 						}
@@ -911,12 +925,6 @@ func runDiscGroup(t *testing.T, cases []discCase, each func(c discCase, fs []fin
 		}
 		if e != nil {
 			e.close()
-		}
-		if os.Getenv("C17_DEBUG") != "" {
-			buf := make([]byte, 1<<20)
-			n := runtime.Stack(buf, true)
-			os.Stderr.Write(buf[:n])
-			os.Exit(3)
 		}
 	})
 }
